@@ -532,6 +532,7 @@ class Verifier:
                     outcome = ('return', None)      # a loop body verified as a block: continue/break end the iteration
                 except PyRaise as e:
                     outcome = ('raise', e)
+                completed += 1
                 if outcome[0] == 'return':
                     result = outcome[1]
                     if fr.yields is not None:
@@ -557,7 +558,6 @@ class Verifier:
                                   info={'exception': e.etype, 'line': getattr(e.node, 'lineno', None)})
                     except PathEnd:
                         pass
-                completed += 1
             except PathEnd:
                 pass
             npaths += 1
